@@ -5,7 +5,7 @@ From Inovesa Require Import Base.FieldKit Model.ScalingOps.
 Import ListNotations.
 (* leaves: O_<getter> = option read through ProgramOptions::<getter>(); C_<name> = physcons::<name> / two_pi;
    S_<local> = program state (loop counter) *)
-Inductive leaf := C_c | C_e | C_epsilon0 | C_me | C_two_pi | O_getAlpha0 | O_getAlpha1 | O_getAlpha2 | O_getBeamEnergy | O_getBendingRadius | O_getDampingTime | O_getEnergySpread | O_getGridSize | O_getHarmonicNumber | O_getPhaseSpaceSize | O_getRFVoltage | O_getRevolutionFrequency | O_getStepsPerTrev | O_getStepsPerTsync | O_getSyncFreq | S_simulationstep.
+Inductive leaf := C_c | C_e | C_epsilon0 | C_me | C_two_pi | O_getAlpha0 | O_getAlpha1 | O_getAlpha2 | O_getBeamEnergy | O_getBendingRadius | O_getDampingTime | O_getEnergySpread | O_getGridSize | O_getHarmonicNumber | O_getPSShiftX | O_getPSShiftY | O_getPhaseSpaceSize | O_getRFVoltage | O_getRevolutionFrequency | O_getStepsPerTrev | O_getStepsPerTsync | O_getSyncFreq | S_simulationstep.
 Inductive bleaf := B_unused.
 Local Open Scope F_scope.
 Local Open Scope bool_scope.
@@ -197,3 +197,26 @@ Definition gen_dynrf_revolutionpart (K : Fld) (O : Ops K) (L : leaf -> K) (B : b
     let x13 := ((L O_getRevolutionFrequency) * x12) in
     let x14 := (if (o_is0 O (L O_getSyncFreq)) then x13 else (L O_getSyncFreq)) in
     ((L O_getRevolutionFrequency) * (1 / (x14 * (if (o_lt O 0 (L O_getStepsPerTrev)) then (((L O_getStepsPerTrev) * (L O_getRevolutionFrequency)) / x14) else (if o_lt O (L O_getStepsPerTsync) 1 then 1 else (L O_getStepsPerTsync)))))).
+Definition gen_qmin (K : Fld) (O : Ops K) (L : leaf -> K) (B : bleaf -> bool) : K :=
+    ((((- (L O_getPSShiftX)) * (L O_getPhaseSpaceSize)) / ((L O_getGridSize) - 1)) - ((L O_getPhaseSpaceSize) / (1+1))).
+Definition gen_qmax (K : Fld) (O : Ops K) (L : leaf -> K) (B : bleaf -> bool) : K :=
+    ((((- (L O_getPSShiftX)) * (L O_getPhaseSpaceSize)) / ((L O_getGridSize) - 1)) + ((L O_getPhaseSpaceSize) / (1+1))).
+Definition gen_pmin (K : Fld) (O : Ops K) (L : leaf -> K) (B : bleaf -> bool) : K :=
+    ((((- (L O_getPSShiftY)) * (L O_getPhaseSpaceSize)) / ((L O_getGridSize) - 1)) - ((L O_getPhaseSpaceSize) / (1+1))).
+Definition gen_pmax (K : Fld) (O : Ops K) (L : leaf -> K) (B : bleaf -> bool) : K :=
+    ((((- (L O_getPSShiftY)) * (L O_getPhaseSpaceSize)) / ((L O_getGridSize) - 1)) + ((L O_getPhaseSpaceSize) / (1+1))).
+Definition gen_axis_steps (K : Fld) (O : Ops K) (L : leaf -> K) (B : bleaf -> bool) : K :=
+    (L O_getGridSize).
+Definition gen_ps_Meter (K : Fld) (O : Ops K) (L : leaf -> K) (B : bleaf -> bool) : K :=
+    let x1 := (((L O_getBeamEnergy) / (L C_me)) * (((L O_getBeamEnergy) / (L C_me)) * (((L O_getBeamEnergy) / (L C_me)) * ((L O_getBeamEnergy) / (L C_me))))) in
+    let x2 := ((L C_e) * x1) in
+    let x3 := ((L C_c) / ((L C_two_pi) * (L O_getRevolutionFrequency))) in
+    let x4 := (if (o_lt O 0 (L O_getBendingRadius)) then (L O_getBendingRadius) else x3) in
+    let x5 := (((1+(1+1)) * (L C_epsilon0)) * x4) in
+    let x6 := (x2 / x5) in
+    let x7 := (x6 * x6) in
+    let x8 := (((L O_getRFVoltage) * (L O_getRFVoltage)) - x7) in
+    let x9 := (o_sqrt O x8) in
+    ((((((L C_c) * ((L O_getEnergySpread) * (L O_getBeamEnergy))) / (L O_getHarmonicNumber)) / ((L O_getRevolutionFrequency) * (L O_getRevolutionFrequency))) / x9) * (if (o_is0 O (L O_getSyncFreq)) then ((L O_getRevolutionFrequency) * (o_sqrt O ((((L O_getAlpha0) * (L O_getHarmonicNumber)) * x9) / ((L C_two_pi) * (L O_getBeamEnergy))))) else (L O_getSyncFreq))).
+Definition gen_ps_ElectronVolt (K : Fld) (O : Ops K) (L : leaf -> K) (B : bleaf -> bool) : K :=
+    ((L O_getEnergySpread) * (L O_getBeamEnergy)).
